@@ -13,6 +13,7 @@ import (
 	"sync"
 	"sync/atomic"
 	"testing"
+	"time"
 
 	"github.com/aperturerobotics/util/broadcast"
 	"github.com/aperturerobotics/util/ccontainer"
@@ -20,6 +21,7 @@ import (
 	"github.com/aperturerobotics/util/csync"
 	"github.com/aperturerobotics/util/memo"
 	"github.com/aperturerobotics/util/promise"
+	"github.com/aperturerobotics/util/refcount"
 	"github.com/aperturerobotics/util/routine"
 	"pgregory.net/rapid"
 	"verif/harness/ev"
@@ -251,7 +253,7 @@ func TestC01Free(t *testing.T) {
 // ---- C11: exactly one SetResult wins, everyone sees it ----
 
 func TestC11Free(t *testing.T) {
-	drive(t, "C11", "2..10 goroutines race SetResult / Await on 1..8 promises with real parallelism; oracle: exactly one SetResult per promise returns true and every Await returns that call's value; non-trivial iff >= 2 goroutines; distinct by program", 16,
+	drive(t, "C11", "2..10 goroutines with real parallelism: SetResult / Await races on 1..8 promises, and on one PromiseContainer {SetPromise(resolved promise carrying the goroutine's next stamp) followed by Await, GetPromise+Await}; oracle: exactly one SetResult per promise returns true and every Await returns that call's value; a container await returns the current promise's result: after its own SetPromise returned a goroutine never gets one of its own older stamps, and the stamps of one writer seen by one reader never go backwards; non-trivial iff >= 2 goroutines; distinct by program", 16,
 		func(cs Case, v *ev.Verdict) {
 			f := &failer{v: v}
 			prs := make([]*promise.Promise[int], cs.Objs)
@@ -260,21 +262,43 @@ func TestC11Free(t *testing.T) {
 			for i := range prs {
 				prs[i] = promise.NewPromise[int]()
 			}
+			pc := promise.NewPromiseContainer[int]()
+			const stampBase = 1000000
 			type seen struct{ obj, val int }
 			var rmu sync.Mutex
 			var results []seen
 			var awg sync.WaitGroup
 			actx, acancel := context.WithCancel(context.Background())
+			isSet := func(op int) bool { return op%8 < 4 && op%4 != 3 }
 			parallel(len(cs.G), func(g int) {
+				var lastSeen [16]int
+				own := 0
+				look := func(x int, where string) {
+					if x == 0 {
+						return
+					}
+					w, seq := x/stampBase-1, x%stampBase
+					if seq < lastSeen[w] {
+						if w == g {
+							f.add("C11", "promisecontainer:stale-own-promise", "%s returned stamp %d of goroutine %d although that goroutine's SetPromise(stamp %d) had already returned", where, seq, w, lastSeen[w])
+						} else {
+							f.add("C11", "promisecontainer:replacement-order-reversed", "%s returned stamp %d of writer %d after a later stamp %d of the same writer had been returned", where, seq, w, lastSeen[w])
+						}
+					}
+					if seq > lastSeen[w] {
+						lastSeen[w] = seq
+					}
+				}
 				for k, op := range cs.G[g] {
 					o := op % cs.Objs
 					val := 1 + g*1000 + k
-					if op%4 != 3 {
+					switch {
+					case isSet(op):
 						if prs[o].SetResult(val, nil) {
 							wins[o].Add(1)
 							winVal[o].Store(int64(val))
 						}
-					} else {
+					case op%8 < 4:
 						// awaiters run beside the setters; leftovers are cancelled at the end
 						awg.Add(1)
 						go func() {
@@ -285,6 +309,19 @@ func TestC11Free(t *testing.T) {
 								rmu.Unlock()
 							}
 						}()
+					case op%8 < 6:
+						own++
+						pc.SetPromise(promise.NewPromiseWithResult((g+1)*stampBase+own, nil))
+						lastSeen[g] = own
+						if x, err := pc.Await(actx); err == nil {
+							look(x, "PromiseContainer.Await")
+						}
+					default:
+						if p, _ := pc.GetPromise(); p != nil {
+							if x, err := p.Await(actx); err == nil {
+								look(x, "GetPromise().Await")
+							}
+						}
 					}
 				}
 			})
@@ -294,7 +331,7 @@ func TestC11Free(t *testing.T) {
 				set := false
 				for _, prog := range cs.G {
 					for _, op := range prog {
-						if op%cs.Objs == o && op%4 != 3 {
+						if op%cs.Objs == o && isSet(op) {
 							set = true
 						}
 					}
@@ -308,6 +345,214 @@ func TestC11Free(t *testing.T) {
 					f.add("C11", "promise:non-winning-result", "Await returned %d but the winning SetResult stored %d", s.val, winVal[s.obj].Load())
 				}
 			}
+		})
+}
+
+// ---- C02: a cancelled Lock leaves no trace, also when the internal mutex is contended ----
+
+func TestC02Free(t *testing.T) {
+	drive(t, "C02", "one RWMutex whose read lock is held by the harness for the whole case; goroutine 0 is the only writer: each of its ops is Lock(write) with a context that is cancelled concurrently (the call can only return context.Canceled), followed at once by a read TryLock; 1..9 further goroutines keep the lock's internal mutex busy with read TryLock/Lock+release; oracle: the cancelled write Lock returns context.Canceled, and the read TryLock issued right after its return succeeds (no writer holds or waits any more, so the cancelled call must not be counted); at the end, after every release, a write TryLock succeeds; non-trivial iff >= 2 goroutines; distinct by program", 20,
+		func(cs Case, v *ev.Verdict) {
+			f := &failer{v: v}
+			var rw csync.RWMutex
+			hold, ok := rw.TryLock(false)
+			if !ok {
+				f.add("C02", "csync:fresh-lock-refused", "read TryLock on a new RWMutex failed")
+				return
+			}
+			var writerDone atomic.Bool
+			parallel(len(cs.G), func(g int) {
+				if g == 0 {
+					defer writerDone.Store(true)
+					for _, op := range cs.G[0] {
+						ctx, cancel := context.WithCancel(context.Background())
+						switch op % 3 {
+						case 0:
+							cancel()
+						case 1:
+							go cancel()
+						default:
+							go func() {
+								for i := 0; i < op%7; i++ {
+									runtime.Gosched()
+								}
+								cancel()
+							}()
+						}
+						rel, err := rw.Lock(ctx, true)
+						cancel()
+						if err == nil {
+							f.add("C02", "csync:write-granted-beside-reader", "a write Lock was granted while a read lock is held")
+							rel()
+							return
+						}
+						if err != context.Canceled {
+							f.add("C02", "csync:wrong-error", "cancelled Lock returned %v", err)
+						}
+						// as if the call had never been made: readers are admitted again
+						r2, ok := rw.TryLock(false)
+						if !ok {
+							f.add("C02", "csync:cancelled-writer-still-counted", "a read TryLock right after a cancelled write Lock returned was refused although no writer holds or waits")
+							return
+						}
+						r2()
+					}
+					return
+				}
+				for _, op := range cs.G[g] {
+					if writerDone.Load() {
+						return
+					}
+					if op%2 == 0 {
+						if r, ok := rw.TryLock(false); ok {
+							runtime.Gosched()
+							r()
+						}
+					} else {
+						ctx, cancel := context.WithCancel(context.Background())
+						go cancel()
+						if r, err := rw.Lock(ctx, false); err == nil {
+							r()
+						}
+						cancel()
+					}
+				}
+			})
+			hold()
+			if r, ok := rw.TryLock(true); !ok {
+				f.add("C02", "csync:not-free-at-end", "write TryLock failed after every holder released and every waiter was cancelled")
+			} else {
+				r()
+			}
+		})
+}
+
+// ---- C09: a reference's view never ends on a stale value, the resolver never overlaps ----
+
+func TestC09Free(t *testing.T) {
+	drive(t, "C09", "one RefCount (always referenced by an anchor reference, resolver returns fresh value ids) with real parallelism: goroutine 0 replaces the context again and again (each replacement drops the value and resolves afresh), the others AddRef with a recording callback (every 4th nil) and Release some of them; afterwards the final value is awaited; oracle: the resolver is never in two calls at once, no callback is told about a value whose release function has already run, and the last state delivered to every unreleased reference's callback is the final value (a reference added while a value was being replaced must not be left with the replaced value); half of the cases run beside a goroutine forcing preemption through runtime.GC; non-trivial iff >= 2 goroutines; distinct by program", 16,
+		func(cs Case, v *ev.Verdict) {
+			f := &failer{v: v}
+			var nextVal, inResolver atomic.Int32
+			relAt := make([]atomic.Int32, 4096) // relAt[id % len] == id once value id's release func ran
+			resolver := func(ctx context.Context, released func()) (int, func(), error) {
+				if n := inResolver.Add(1); n > 1 {
+					f.add("C09", "refcount:resolver-overlap", "%d resolver calls running at once", n)
+				}
+				runtime.Gosched()
+				id := int(nextVal.Add(1))
+				inResolver.Add(-1)
+				return id, func() { relAt[id%len(relAt)].Store(int32(id)) }, nil
+			}
+			root, cancelRoot := context.WithCancel(context.Background())
+			defer cancelRoot()
+			rc := refcount.NewRefCount[int](root, false, nil, nil, resolver)
+			type view struct {
+				mu       sync.Mutex
+				resolved bool
+				val      int
+				n        int
+			}
+			var vmu sync.Mutex
+			var views []*view
+			refs := map[*view]*refcount.Ref[int]{}
+			add := func(nilCb bool) (*view, *refcount.Ref[int]) {
+				vw := &view{}
+				var cb func(bool, int, error)
+				if !nilCb {
+					cb = func(resolved bool, val int, err error) {
+						if resolved && int(relAt[val%len(relAt)].Load()) == val {
+							f.add("C09", "refcount:released-value-delivered", "a reference callback was told (resolved, value %d) after that value's release function had run", val)
+						}
+						vw.mu.Lock()
+						vw.resolved, vw.val = resolved, val
+						vw.n++
+						vw.mu.Unlock()
+					}
+				}
+				ref := rc.AddRef(cb)
+				if !nilCb {
+					vmu.Lock()
+					views = append(views, vw)
+					refs[vw] = ref
+					vmu.Unlock()
+				}
+				return vw, ref
+			}
+			add(false) // anchor
+			var stopGC atomic.Bool
+			var gwg sync.WaitGroup
+			if cs.RW {
+				// force asynchronous preemption so that a goroutine can be suspended anywhere
+				gwg.Add(1)
+				go func() {
+					defer gwg.Done()
+					for !stopGC.Load() {
+						runtime.GC()
+					}
+				}()
+			}
+			parallel(len(cs.G), func(g int) {
+				var mine []*view
+				var mineRefs []*refcount.Ref[int]
+				for k, op := range cs.G[g] {
+					if g == 0 {
+						// (the contexts end with root, after the final look)
+						ctx, cancel := context.WithCancel(root)
+						_ = cancel
+						rc.SetContext(ctx)
+						if op%3 == 0 {
+							runtime.Gosched()
+						}
+						continue
+					}
+					switch op % 4 {
+					case 0, 1:
+						vw, ref := add(op%16 == 1)
+						mine, mineRefs = append(mine, vw), append(mineRefs, ref)
+					case 2:
+						if len(mine) > 0 {
+							i := k % len(mine)
+							mineRefs[i].Release()
+							vmu.Lock()
+							delete(refs, mine[i])
+							vmu.Unlock()
+							mine = append(mine[:i], mine[i+1:]...)
+							mineRefs = append(mineRefs[:i], mineRefs[i+1:]...)
+						}
+					default:
+						runtime.Gosched()
+					}
+				}
+			})
+			stopGC.Store(true)
+			gwg.Wait()
+			wctx, wcancel := context.WithTimeout(context.Background(), 20*time.Second)
+			final, fref, err := rc.Wait(wctx)
+			wcancel()
+			if err != nil {
+				f.add("C09", "refcount:no-final-value", "Wait after the last context change returned %v", err)
+				return
+			}
+			// Wait returns as soon as its own callback ran; the section that delivers the value to
+			// the other references may still be in progress: pass through the lock once more
+			rc.AddRef(nil).Release()
+			vmu.Lock()
+			for _, vw := range views {
+				if _, live := refs[vw]; !live {
+					continue
+				}
+				vw.mu.Lock()
+				if !vw.resolved || vw.val != final {
+					f.add("C09", "refcount:reference-left-with-stale-value", "the last callback of an unreleased reference said (resolved=%v, value %d) after %d callbacks, but the container's current value is %d", vw.resolved, vw.val, vw.n, final)
+				}
+				vw.mu.Unlock()
+			}
+			for _, ref := range refs {
+				ref.Release()
+			}
+			vmu.Unlock()
+			fref.Release()
 		})
 }
 
@@ -383,14 +628,34 @@ func TestC16Free(t *testing.T) {
 // ---- C15: SwapValue increments are never lost ----
 
 func TestC15Free(t *testing.T) {
-	drive(t, "C15", "2..10 goroutines x 1..30 ops {SwapValue(inc), GetValue, WaitValueChange} on one CContainer with real parallelism; oracle: final value == number of increments, callbacks never run concurrently; non-trivial iff >= 2 goroutines; distinct by program", 30,
+	drive(t, "C15", "2..10 goroutines x 1..30 ops on two CContainers with real parallelism: {SwapValue(inc), GetValue, WaitValueChange} on a counter, and {SetValue(own increasing stamp) followed by GetValue, SwapValue(identity, yielding while it holds the lock), GetValue} on a cell of (writer, sequence) stamps; oracle: final counter == number of increments, callbacks never run concurrently, and reads are consistent with a single atomic cell: after its own SetValue returned a goroutine never reads one of its own older stamps, and the stamps of one writer seen by one reader never go backwards; non-trivial iff >= 2 goroutines; distinct by program", 30,
 		func(cs Case, v *ev.Verdict) {
 			f := &failer{v: v}
 			c := ccontainer.NewCContainer(0)
+			c2 := ccontainer.NewCContainer(0)
+			const stampBase = 1000000
 			var incs, inCb atomic.Int32
 			parallel(len(cs.G), func(g int) {
+				var lastSeen [16]int // per writer: highest sequence this goroutine has read
+				own := 0
+				look := func(x int, where string) {
+					if x == 0 {
+						return
+					}
+					w, seq := x/stampBase-1, x%stampBase
+					if seq < lastSeen[w] {
+						if w == g {
+							f.add("C15", "ccontainer:stale-own-write", "%s read stamp %d of goroutine %d although that goroutine's SetValue(%d) had already returned", where, seq, w, lastSeen[w])
+						} else {
+							f.add("C15", "ccontainer:write-order-reversed", "%s read stamp %d of writer %d after having read its later stamp %d", where, seq, w, lastSeen[w])
+						}
+					}
+					if seq > lastSeen[w] {
+						lastSeen[w] = seq
+					}
+				}
 				for _, op := range cs.G[g] {
-					switch op % 4 {
+					switch op % 7 {
 					case 0, 1:
 						incs.Add(1)
 						c.SwapValue(func(x int) int {
@@ -403,7 +668,7 @@ func TestC15Free(t *testing.T) {
 						})
 					case 2:
 						_ = c.GetValue()
-					default:
+					case 3:
 						ctx, cancel := context.WithCancel(context.Background())
 						old := c.GetValue()
 						go cancel()
@@ -411,6 +676,19 @@ func TestC15Free(t *testing.T) {
 							f.add("C15", "ccontainer:condition-not-satisfied", "WaitValueChange(%d) returned %d", old, x)
 						}
 						cancel()
+					case 4:
+						own++
+						c2.SetValue((g+1)*stampBase + own)
+						lastSeen[g] = own
+						look(c2.GetValue(), "GetValue")
+					case 5:
+						// keep the second cell's lock busy for a while without changing it
+						look(c2.SwapValue(func(x int) int {
+							runtime.Gosched()
+							return x
+						}), "SwapValue")
+					default:
+						look(c2.GetValue(), "GetValue")
 					}
 				}
 			})
@@ -423,7 +701,7 @@ func TestC15Free(t *testing.T) {
 // ---- C18: limit and exactly-once under real parallelism ----
 
 func TestC18Free(t *testing.T) {
-	drive(t, "C18", "2..10 producers enqueue batches into a queue with limit 1..3 (or unlimited) with real parallelism; jobs count concurrent and total executions; WaitIdle at the end; non-trivial iff >= 2 producers; distinct by program", 10,
+	drive(t, "C18", "2..10 producers enqueue batches into a queue with limit 1..3 (or unlimited) with real parallelism; 1..4 pollers call the zero-argument Enqueue() throughout (half of the cases with a goroutine forcing preemption through runtime.GC); jobs count concurrent and total executions; every returned (queued, running) pair is checked; WaitIdle at the end; non-trivial iff >= 2 producers; distinct by program", 10,
 		func(cs Case, v *ev.Verdict) {
 			f := &failer{v: v}
 			limit := cs.Objs % 4 // 0 = unlimited
@@ -444,6 +722,34 @@ func TestC18Free(t *testing.T) {
 					active.Add(-1)
 				}
 			}
+			// pollers read the counters through the zero-argument Enqueue while the producers
+			// and workers run; a collector goroutine forces asynchronous preemption so that a
+			// poller can be suspended between any two instructions
+			var stopPoll atomic.Bool
+			var pwg sync.WaitGroup
+			for p := 0; p < 1+cs.Objs%4; p++ {
+				pwg.Add(1)
+				go func() {
+					defer pwg.Done()
+					for !stopPoll.Load() {
+						qd, rn := q.Enqueue()
+						if limit > 0 && (rn > limit || (qd > 0 && rn != limit)) {
+							f.add("C18", "conc:pair-queued-while-free", "a polling Enqueue() returned (queued=%d, running=%d) with limit %d", qd, rn, limit)
+							return
+						}
+					}
+				}()
+			}
+			if cs.RW {
+				pwg.Add(1)
+				go func() {
+					defer pwg.Done()
+					for !stopPoll.Load() {
+						runtime.GC()
+					}
+				}()
+			}
+			defer func() { stopPoll.Store(true); pwg.Wait() }()
 			parallel(len(cs.G), func(g int) {
 				for k, op := range cs.G[g] {
 					n := op % 4
